@@ -46,29 +46,51 @@ func genOp(t *rapid.T) kit.Cmd {
 	switch gen.Weighted(t, "cmd", []int{14, 8, 4, 4, 3, 3, 5, 3, 5, 5, 4, 3, 3, 3, 3, 5, 4, 3, 4, 3, 2, 2, 2, 2}) {
 	case 0: // SET with options
 		args := []string{k, gen.Value(t, "v")}
-		n := rapid.IntRange(0, 3).Draw(t, "nopts")
-		for i := 0; i < n; i++ {
-			switch rapid.IntRange(0, 8).Draw(t, "opt") {
-			case 0:
-				args = append(args, gen.CaseOf(t, "nx"))
-			case 1:
-				args = append(args, gen.CaseOf(t, "xx"))
-			case 2:
-				args = append(args, gen.CaseOf(t, "get"))
-			case 3:
-				args = append(args, gen.CaseOf(t, "keepttl"))
-			case 4:
-				args = append(args, gen.CaseOf(t, "ex"), gen.Pick(t, "ex", "1000", "5000", "100000", "0", "-1", "abc", "9223372036854775807"))
-			case 5:
-				args = append(args, gen.CaseOf(t, "px"), gen.Pick(t, "px", "1000000", "5000000", "0", "-5", "x"))
-			case 6:
-				args = append(args, gen.CaseOf(t, "exat"), gen.Pick(t, "exat", "4102444800", "4102448400", "0", "-1", "zz"))
-			case 7:
-				args = append(args, gen.Pick(t, "bad", "bogus", "", "EX"))
-			case 8:
-				// option keyword without its argument at the very end
-				args = append(args, gen.Pick(t, "dangling", "ex", "px", "exat"))
+		// options: condition, GET, one expire-class option; rarely illegal combinations
+		var opts [][]string
+		switch rapid.IntRange(0, 9).Draw(t, "cond") {
+		case 0, 1:
+			opts = append(opts, []string{gen.CaseOf(t, "nx")})
+		case 2, 3:
+			opts = append(opts, []string{gen.CaseOf(t, "xx")})
+		case 4:
+			if rapid.IntRange(0, 3).Draw(t, "both") == 0 {
+				opts = append(opts, []string{"nx"}, []string{"XX"})
 			}
+		}
+		hasNX := len(opts) == 1 && (opts[0][0] == "nx" || opts[0][0] == "NX" || opts[0][0] == "Nx" || opts[0][0] == "nX")
+		if rapid.IntRange(0, 3).Draw(t, "get") == 0 && !hasNX {
+			opts = append(opts, []string{gen.CaseOf(t, "get")})
+		}
+		expire := func() []string {
+			switch rapid.IntRange(0, 5).Draw(t, "exp") {
+			case 0:
+				return []string{gen.CaseOf(t, "keepttl")}
+			case 1:
+				return []string{gen.CaseOf(t, "ex"), gen.Pick(t, "ex", "1000", "5000", "100000", "0", "-1", "abc", "9223372036854775807")}
+			case 2:
+				return []string{gen.CaseOf(t, "px"), gen.Pick(t, "px", "1000000", "5000000", "0", "-5", "x")}
+			case 3:
+				return []string{gen.CaseOf(t, "exat"), gen.Pick(t, "exat", "4102444800", "4102448400", "0", "-1", "zz")}
+			case 4:
+				return []string{gen.Pick(t, "bad", "bogus", "", "EX")}
+			}
+			return []string{gen.Pick(t, "dangling", "ex", "px", "exat")} // keyword without its argument
+		}
+		if rapid.IntRange(0, 2).Draw(t, "hasexp") > 0 {
+			e1 := expire()
+			opts = append(opts, e1)
+			if rapid.IntRange(0, 9).Draw(t, "two") == 0 {
+				e2 := expire()
+				if strings.ToLower(e2[0]) != strings.ToLower(e1[0]) {
+					opts = append(opts, e2)
+				}
+			}
+		}
+		// options in a generated order
+		perm := rapid.Permutation(opts).Draw(t, "order")
+		for _, o := range perm {
+			args = append(args, o...)
 		}
 		return c("set", args...)
 	case 1:
